@@ -1,6 +1,7 @@
     // LRU pinning on the REAL Lru (intrusive lists executed by CBMC): a record that was looked up (acquire) is not a
     // victim until it is released, then it is evictable again. Two records, default hints => bounded (2 records).
     use crate::{cache::CacheProperties, record::Data};
+    use foyer_common::properties::Hint;
     type VL = Lru<u8, u8, CacheProperties>;
     fn vrec(k: u8) -> Arc<Record<VL>> {
         Arc::new(Record::new(Data::<VL> { key: k, value: k, properties: CacheProperties::default(), hash: k as u64, weight: 1 }))
@@ -37,4 +38,44 @@
         let v = lru.pop();
         assert!(v.is_none(), "[canary]");
         std::mem::forget((lru, r1, v));
+    }
+
+    fn vrec_w(k: u8, low: bool) -> Arc<Record<VL>> {
+        let props = if low { CacheProperties::default().with_hint(Hint::Low) } else { CacheProperties::default() };
+        Arc::new(Record::new(Data::<VL> { key: k, value: k, properties: props, hash: k as u64, weight: 1 }))
+    }
+
+    /// low-priority entries are evicted first, then the least recently pushed high-priority one
+    #[kani::proof]
+    #[kani::unwind(4)]
+    fn low_priority_entries_are_evicted_first() {
+        let mut lru = VL::new(10, &LruConfig { high_priority_pool_ratio: 0.9 });
+        let r1 = vrec_w(1, false);
+        let r2 = vrec_w(2, true);
+        let r3 = vrec_w(3, false);
+        lru.push(r1.clone());
+        lru.push(r2.clone());
+        lru.push(r3.clone());
+        let a = lru.pop();
+        assert!(a.is_some() && Arc::ptr_eq(a.as_ref().unwrap(), &r2), "[low_priority_entry_is_the_first_victim]");
+        let b = lru.pop();
+        assert!(b.is_some() && Arc::ptr_eq(b.as_ref().unwrap(), &r1), "[then_least_recently_used_high_priority_entry]");
+        let c = lru.pop();
+        assert!(c.is_some() && Arc::ptr_eq(c.as_ref().unwrap(), &r3), "[then_the_next_one]");
+        std::mem::forget((lru, r1, r2, r3, a, b, c));
+    }
+
+    /// the high-priority pool holds at most its configured share: the overflow moves to the low-priority queue
+    #[kani::proof]
+    #[kani::unwind(4)]
+    fn high_priority_pool_is_bounded_by_its_share() {
+        let mut lru = VL::new(10, &LruConfig { high_priority_pool_ratio: 0.1 }); // share = 1
+        let r1 = vrec_w(1, false);
+        let r2 = vrec_w(2, false);
+        lru.push(r1.clone());
+        lru.push(r2.clone());
+        assert!(lru.high_priority_weight <= lru.high_priority_weight_capacity, "[high_priority_weight_within_share_after_push]");
+        let a = lru.pop();
+        assert!(a.is_some() && Arc::ptr_eq(a.as_ref().unwrap(), &r1), "[overflowed_entry_is_evicted_before_the_pool]");
+        std::mem::forget((lru, r1, r2, a));
     }
